@@ -69,6 +69,17 @@ def c05(run, scratch):
     okc = sum(1 for x in recs if x['nc']['status'] == 'ok' and x['c']['status'] == 'ok')
     if okc < 0.7 * len(recs):
         raise tlc.TlcFailure('non-vacuity: only %d of %d pseudo programs assembled in both modes' % (okc, len(recs)))
+    # li takes EVERY 32-bit value: a program made of li's of literal values only can never be refused
+    nli = 0
+    for rec in recs:
+        if all(it['k'] == 'li' for it in rec['prog']):
+            nli += 1
+            for mode in ('nc', 'c'):
+                if rec[mode]['status'] != 'ok':
+                    run.violation('LiAcceptsEveryValue', {'mode': mode, 'status': rec[mode]['status']},
+                                  {'source': rec['src'], 'mode': mode, 'message': rec[mode].get('msg')})
+    if nli < 1000:
+        raise tlc.TlcFailure('non-vacuity: only %d literal li programs' % nli)
     bad = layout.validate(recs, scratch, run, shard=250, module='SemTrace', parts=2)
     items = 0
     kinds = set()
